@@ -91,9 +91,22 @@ func (cl call) model() string {
 }
 
 // delegating cache: installed once, inner replaced per sequence.
-type deleg struct{ inner valid.CacheEr }
+type deleg struct {
+	inner  valid.CacheEr
+	loads  int          // Load calls since the last reset
+	missAt map[int]bool // Load calls (by index) answered with a miss although the entry may be present
+}
 
-func (d *deleg) Load(k interface{}) (interface{}, bool) { return d.inner.Load(k) }
+// A Load may legitimately miss an entry that was stored before (another goroutine evicted it, or has not stored it
+// yet): the environment answer "miss at the i-th Load" is enumerated as a deviation.
+func (d *deleg) Load(k interface{}) (interface{}, bool) {
+	i := d.loads
+	d.loads++
+	if d.missAt[i] {
+		return nil, false
+	}
+	return d.inner.Load(k)
+}
 func (d *deleg) Store(k, v interface{})                  { d.inner.Store(k, v) }
 
 type missCache struct{}
@@ -289,6 +302,72 @@ func run(c *runner.Ctx) {
 			})
 		}
 	}
+	if !defaultMode {
+		spuriousMisses(c, d, all, expect, 3)
+	}
+}
+
+// spuriousMisses: every sequence again with one (thorough: also two) of its cache loads answered with a miss.
+func spuriousMisses(c *runner.Ctx, d *deleg, all []call, expect []string, depth int) {
+	for _, cf := range cfgs {
+		if cf.name != "LRU(1)" && cf.name != "LRU(2)" && cf.name != "LRU(512)" && cf.name != "sync.Map" {
+			continue
+		}
+		c.Space(fmt.Sprintf("%s:%s/spurious-load-miss", c.Mode, cf.name))
+		enum.Seqs(len(all), depth, func(seq []int) {
+			if !c.Take() {
+				return
+			}
+			runOnce := func(miss map[int]bool) (int, bool) {
+				d.inner, d.loads, d.missAt = cf.mk(), 0, miss
+				defer func() { d.missAt = nil }()
+				var trace []string
+				for pos, ci := range seq {
+					cl := all[ci]
+					var err error
+					pan, msg, site := runner.Guard(func() { err = cl.run() })
+					got := ""
+					if err != nil {
+						got = err.Error()
+					}
+					trace = append(trace, cl.String())
+					if pan || got != expect[ci] {
+						var ms []int
+						for k := range miss {
+							ms = append(ms, k)
+						}
+						det := map[string]interface{}{"config": cf.name, "sequence": strings.Join(trace, " ; "), "position": pos, "loads_answered_with_miss": ms, "expected": expect[ci], "actual": got}
+						if pan {
+							det["panic"] = msg
+							c.Violation("panic@"+site+"/after-spurious-miss", det)
+						} else {
+							c.Violation("result-depends-on-cache-answer", det)
+						}
+						return d.loads, false
+					}
+				}
+				return d.loads, true
+			}
+			n, ok := runOnce(nil)
+			runs := 1
+			for p := 0; ok && p < n; p++ {
+				if _, ok2 := runOnce(map[int]bool{p: true}); !ok2 {
+					break
+				}
+				runs++
+				if c.Thorough() {
+					for q := p + 1; q < n+1; q++ {
+						if _, ok3 := runOnce(map[int]bool{p: true, q: true}); !ok3 {
+							break
+						}
+						runs++
+					}
+				}
+			}
+			c.Done(true, runs*len(seq))
+			c.Outcome("ok")
+		})
+	}
 }
 
 func main() {
@@ -297,7 +376,7 @@ func main() {
 		Technique: "explicit enumeration of all call histories up to a depth x cache configurations x start states on the real code vs pure-function model (cross-configuration differential)",
 		Rule: "calls = 3 types (nested, time.Time fields) x tag names {a,b} (different rules per tag on the same fields; the value violates the a-rules on one field and the b-rules on another) x {tag rules, per-call override of the shared field}; " +
 			"all sequences of length d (3 quick, 4 thorough) from 3 start states (cold, warmed under the other tag / with overrides, warmed then flushed by capacity+1 filler types) on 8 cache configurations switched in-process, plus, for the bounded LRUs of capacity 1,2,3,8, the start states churn-r (r = 1..2*capacity+3 evictions before the sequence: every position of the LRU's internal map rebuild relative to the next d calls) " +
-			"and on the untouched package default (separate worker set); every call compared with walk(type, tag, override, value); states = (configuration, per-type last tag) ; non-trivial = a type re-validated under the other tag",
+			"and on the untouched package default (separate worker set); and every depth-3 sequence on LRU(1), LRU(2), LRU(512), sync.Map with one (thorough: one or two) of its cache loads answered with a miss although the entry is present (the answer a concurrent eviction produces); every call compared with walk(type, tag, override, value); states = (configuration, per-type last tag) ; non-trivial = a type re-validated under the other tag",
 		Assumptions: []string{"walk model internal/walk", "the global cache is replaced through the public SetStructTypeCache only"},
 		Run:         run,
 		Modes:       []runner.Mode{{Name: "inproc"}, {Name: "default", Workers: 8}},
